@@ -743,6 +743,9 @@ func partB(r *vh.Run, table map[model.CommandMode][2]int) {
 			}
 		}
 		craftedDocs(r, table, tmp, s, src, all)
+		if s == samples[0] {
+			entryMatrix(r, table, tmp, s, src)
+		}
 	}
 }
 
@@ -786,6 +789,93 @@ func craftedDocs(r *vh.Run, table map[model.CommandMode][2]int, tmp, doc string,
 			runOps(r, table, tmp, doc, crafted, cfgr, "crafted-empty-owner", p, rev, all,
 				[]cred{{"user-only", "upw", "", true, true}, {"none", "", "", true, false}, {"user+wrong-owner", "upw", "nope", false, true}},
 				func(int) bool { return true })
+		}
+	}
+}
+
+// entryMatrix: EVERY pkg/api entry point that stores a command mode, with the user password only, on documents
+// whose extract and modify bits differ (both directions) for revision 2, 4, 5 and 6.
+func entryMatrix(r *vh.Run, table map[model.CommandMode][2]int, tmp, doc string, src []byte) {
+	es := entries()
+	// the harness's list of entry points and their modes against the table extracted from the source
+	names, believed := believedTable(es)
+	r.Case("apiEntryCount", nil, fmt.Sprint(len(names)))
+	for i, fn := range names {
+		r.Case("apiEntry", []string{fmt.Sprint(i)}, vh.Ints(believed[fn]))
+	}
+	if err := os.WriteFile(filepath.Join(tmp, "attach.txt"), []byte("C26"), 0o644); err != nil {
+		panic(err)
+	}
+	none := int(model.PermissionsNone)
+	type target struct {
+		cfg  encCfg
+		rev  int
+		perm int
+	}
+	var targets []target
+	for _, perm := range []int{none | 0x10 | 0x200, none | 0x08 | 0x400} { // extract granted / modify denied, and the converse
+		targets = append(targets,
+			target{encCfg{"rc4-40", false, 40}, 2, perm}, target{encCfg{"aes-128", true, 128}, 4, perm},
+			target{encCfg{"aes-256", true, 256}, 5, perm}, target{encCfg{"aes-256-crafted-R6", true, 256}, 6, perm})
+		if r.Thorough() {
+			targets = append(targets, target{encCfg{"rc4-128", false, 128}, 4, perm})
+		}
+	}
+	for _, tg := range targets {
+		conf := model.NewDefaultConfiguration()
+		conf.UserPW, conf.OwnerPW = "upw", "opw"
+		conf.EncryptUsingAES, conf.EncryptKeyLength = tg.cfg.aes, tg.cfg.klen
+		conf.Permissions = model.PermissionFlags(tg.perm)
+		var buf bytes.Buffer
+		if err := api.Encrypt(bytes.NewReader(src), &buf, conf); err != nil {
+			panic(fmt.Sprintf("encrypt (entry matrix) %s: %v", tg.cfg.label, err))
+		}
+		enc := buf.Bytes()
+		p := int(int16(tg.perm))
+		if tg.rev == 6 {
+			rc := model.NewDefaultConfiguration()
+			rc.OwnerPW = "opw"
+			ctx, err := api.ReadContext(bytes.NewReader(enc), rc)
+			if err != nil || ctx.E.R != 5 || len(ctx.EncKey) != 32 {
+				r.Count("e2e:crafting-skipped")
+				continue
+			}
+			enc = craftAES256(enc, 6, "upw", "opw", ctx.E.U, ctx.E.UE, ctx.E.O, ctx.E.OE, ctx.EncKey)
+		}
+		e := &env{b: enc, file: filepath.Join(tmp, "in.pdf"), tmp: tmp}
+		if err := os.WriteFile(e.file, enc, 0o644); err != nil {
+			panic(err)
+		}
+		r.Count(fmt.Sprintf("e2e:entry-matrix:R=%d", tg.rev))
+		call := func(en entry, upw, opw string) (res string) {
+			defer func() {
+				if x := recover(); x != nil {
+					res = fmt.Sprintf("panic:%v", x)
+				}
+			}()
+			c := model.NewDefaultConfiguration()
+			c.UserPW, c.OwnerPW = upw, opw
+			return classify(en.run(e, c))
+		}
+		for _, en := range es {
+			// the arguments must carry the call to the access decision: a wrong password is answered as such
+			// (or the command is refused for every encrypted file / insists on the owner password)
+			switch probe := call(en, "nope", ""); probe {
+			case "wrong-password", "encrypted-unsupported", "owner-required":
+			default:
+				r.Count("e2e:entry-point-NOT-reaching-access-decision:" + en.via)
+				continue
+			}
+			baseline := call(en, "upw", "opw") // what the operation does once access is granted
+			got := call(en, "upw", "")
+			if strings.HasPrefix(baseline, "error:") && got == baseline {
+				got = "ok" // proceeds exactly as with the owner password (the sample has no form, signature, ...)
+			}
+			cr := cred{"user-only", "upw", "", false, true}
+			r.Case("access", []string{"true", "false", "true", "true", hx(""), hx("upw"),
+				vh.Int(int64(en.mode)), vh.Int(int64(p)), vh.Int(int64(tg.rev))}, got)
+			oracleB(r, table, doc, tg.cfg, "entry-matrix", op{name: "api." + en.via, mode: en.mode}, cr, p, tg.rev, got)
+			r.Count("e2e:entry-point:" + en.fn)
 		}
 	}
 }
